@@ -478,14 +478,18 @@ def check_json_extends(case):
 def json_extends_cases():
     names = ["a", "b", "c", "d"]
     bodies = [{"x": 1}, {"x": 2, "y": 2}, {"y": 3, "from": 5}, {"z": 4, "x": 9}]
-    for parents in itertools.product([None, "a", "b", "c", "d", "missing"], repeat=4):
+    # falsy values (0, 0.0, "", [], False, None) set in a child are values like any other: they win over the parent's
+    falsy = [{"x": 0, "y": 0.0}, {"x": 5, "y": 7, "z": 1}, {"y": "", "z": [], "from": 0}, {"z": False, "x": None}]
+    for bodies_, parent_sets in ((bodies, itertools.product([None, "a", "b", "c", "d", "missing"], repeat=4)), (falsy, [("b", None, None, None), ("b", "c", "d", None), (None, None, "b", "c"), ("d", "a", None, "c")])):
+      for parents in parent_sets:
         whole = {}
+        bodies = bodies_
         for nme, body, par in zip(names, bodies, parents):
             e = dict(body)
             if par is not None:
                 e["extends"] = par
             whole[nme] = e
-        for start in ("a", "d"):
+        for start in ("a", "d") if bodies_ is not falsy else ("a", "c", "d"):
             for excl in (None, ["from"], ["x"]):
                 yield {"whole": whole, "start": start, "excludes": excl}
 
